@@ -53,6 +53,16 @@ CHECKS.update({
          "DFS exactness and termination proofs in Lean 4; structural correspondence of the real texts", "7 C20"),
 })
 
+ALG = "Modelled, not verified: hash container iteration order (theorems hold for every order), anyhow's error text. "
+CHECKS.update({
+ "C11": ("proof", "Props.C11 on the two-pass program mergeRec2 (the one executed and compared with the real merge()): model_refines (program over the API, so C01-C03 keep applying), two_pass_is_first_pass, grafts (every path of the tree exists from `left`; everything the left graph had survives), data_and_injective, new_vertices (one new vertex per lacking path, under an absent id), tree_merge_is_ok, keeps_path_injectivity; second_pass_is_noop_partial. Tie: random tree pairs merged on the real code and on the model; monC11 checks paths/data markers/injectivity/preservation/new-vertex count on the observed graphs and compares outcome, alive set and the drain with the reference run.",
+         "structural induction over trees + program refinement in Lean 4; differential correspondence; graft monitor", "7 C11"),
+ "C12": ("proof", "Props.C12.ok_implies_complete and unreachable_gives_err (table keys are duplicate-free and reachable from `right`, so an unreachable present vertex makes the table strictly shorter and is named as missed), merge_outcome (the model makes the mapped.len()==g.len() test literally), model_refines. Tie: broken right graphs merged on the real code; monC12 accepts Ok only if every present right vertex is reachable and compares the ids named after 'missed:'.",
+         "cardinality argument over the mapping table in Lean 4; differential correspondence", "7 C12"),
+ "C13": ("proof", "Props.C13: done_is_reachable for every drain order, terminates for every reachable graph (fuel cap+1 never exhausted), slice_exact (present vertices = reachable set under original ids; each kept vertex has exactly the source's edges into kept vertices) for every reachable source graph whose rebuild stays within the limits, rebuild_refines. Tie: slices of cyclic digraphs with rejection tables on the real code vs the model; monC13 checks the statement on the observed slice (kept set, accepted edges present, no foreign edge) and that the source is unchanged.",
+         "work-list invariant, termination measure and rebuild refinement in Lean 4; differential correspondence", "7 C13"),
+})
+
 NOT_YET = {}
 
 def main():
@@ -66,7 +76,7 @@ def main():
             "replay_cmd_template": "./check replay {path}",
             "engine": "lean4+correspondence",
             "level_claimed": {"category": level, "text": text, "design_ref": "DESIGN.md section " + ref},
-            "level_note": BASE + (PURE if pid in ("C15", "C16", "C17") else CONT + (SER if pid in ("C08", "C09") else "") + (REN if pid in ("C18", "C20") else "")),
+            "level_note": BASE + (PURE if pid in ("C15", "C16", "C17") else CONT + (SER if pid in ("C08", "C09") else "") + (REN if pid in ("C18", "C20") else "") + (ALG if pid in ("C11", "C12", "C13") else "")),
             "technique": tech,
         })
     props = [json.loads(l)["id"] for l in open(os.path.join(ROOT, "properties.jsonl"))]
